@@ -442,6 +442,7 @@ def check_sample(w, st, nid, net, rec, S, msgs):
                                             "synthetic parent values") if seen_row else
                                    "the forest was never queried with the final synthetic parent values of this row"}))
                     break
+    w.last_positions = positions
     # 4c. the draws follow the weights the forest returned (not merely their support)
     for what in follow.verdicts():
         found.append(("predict_protocol", site, what))
@@ -585,6 +586,8 @@ def h_net_sample(w, st, rec):
                                "global_rng_prestates_differ": differ})
     if rec.get("burst") and not failed_peer and not found:
         # a long session in one step: the same sample call many times in a row
+        pos0 = dict(getattr(w, "last_positions", {}) or {})
+        same_bits = {key: 0.0 for key in pos0}       # oracle 4d: -log2 P(all repetitions draw like the first)
         for b in range(int(rec["burst"]) - 1):
             l0 = len(peer().log)
             ob = w.call(lambda: obj.sample(n, random_state=mkseed()))
@@ -602,6 +605,28 @@ def h_net_sample(w, st, rec):
                     w.violate(cls, s2, dict(detail, how="repetition %d of a burst" % (b + 2)))
                 if bad:
                     break
+                if rec.get("seed") is None:
+                    # 4d. consecutive unseeded samples: the forest draws of one call do not repeat those of the call
+                    #     before (equal weights on kk candidates: identical positions in every row of every
+                    #     repetition have probability kk ** -(rows * repetitions))
+                    now = getattr(w, "last_positions", {}) or {}
+                    for key in list(same_bits):
+                        a_, b_ = pos0.get(key), now.get(key)
+                        kk = {c for c, _ in (a_ or [])} | {c for c, _ in (b_ or [])}
+                        if not a_ or not b_ or len(a_) != len(b_) or len(kk) != 1 or min(kk) < 2 or \
+                                any(h < 0 for _, h in a_ + b_) or [h for _, h in a_] != [h for _, h in b_]:
+                            del same_bits[key]
+                        else:
+                            same_bits[key] += len(a_) * math.log2(min(kk))
+                    if same_bits:
+                        w.probes["consecutive_unseeded_samples.draws_compared"] += 1
+                    worst = max(same_bits.items(), key=lambda kv: kv[1], default=None)
+                    if worst and worst[1] >= 64:
+                        w.violate("non_source_draws_identical", site,
+                                  {"what": "the forest draws of %d consecutive unseeded samples repeat those of the first, "
+                                           "row by row" % (b + 2), "env": worst[0][0], "var": worst[0][1],
+                                   "bits": round(worst[1], 1)})
+                        break
         w.probes["burst.samples_on_one_network"] += 1
     if rec.get("keep"):
         st.results[rec["keep"]] = S
